@@ -270,6 +270,8 @@ func runC11(c *core.Ctx) {
 		via   string
 		cmd   []string
 		label string
+		// ordered: the declaration order of b matters (a heading declared twice: the later one counts)
+		ordered bool
 	}
 	var cases []cli
 	cmds := [][]string{{"csv", "database-resolved"}, {"reg"}, {"bal"}, {"report", "element-total", "x"}, {"report", "totals"}, {"summary", "2021/01/24"},
@@ -281,7 +283,7 @@ func runC11(c *core.Ctx) {
 				continue
 			}
 			for _, via := range []string{"flag", "env", "config"} {
-				cases = append(cases, cli{chainBook(l, r), n, via, cmds[r.Intn(len(cmds))], fmt.Sprintf("chain %d limit %d via %s", l, n, via)})
+				cases = append(cases, cli{chainBook(l, r), n, via, cmds[r.Intn(len(cmds))], fmt.Sprintf("chain %d limit %d via %s", l, n, via), false})
 			}
 		}
 	}
@@ -291,24 +293,44 @@ func runC11(c *core.Ctx) {
 		for _, k := range []int{3, 20} {
 			for _, l := range []int{n - 1, n, n + 1} {
 				for _, via := range []string{"flag-over-config", "env-over-config"} {
-					cases = append(cases, cli{chainBook(l, nil), n, fmt.Sprintf("%s:%d", via, k), cmds[r.Intn(len(cmds))], fmt.Sprintf("chain %d limit %d via %s (config says %d)", l, n, via, k)})
+					cases = append(cases, cli{chainBook(l, nil), n, fmt.Sprintf("%s:%d", via, k), cmds[r.Intn(len(cmds))], fmt.Sprintf("chain %d limit %d via %s (config says %d)", l, n, via, k), false})
 				}
 			}
 		}
 	}
 	for cl := 1; cl <= 4; cl++ {
 		for _, n := range []int{1, 3, 10, 100000000} {
-			cases = append(cases, cli{cycleBook(cl, cl-1), n, "flag", cmds[r.Intn(len(cmds))], fmt.Sprintf("cycle %d limit %d via flag", cl, n)})
+			cases = append(cases, cli{cycleBook(cl, cl-1), n, "flag", cmds[r.Intn(len(cmds))], fmt.Sprintf("cycle %d limit %d via flag", cl, n), false})
 		}
 	}
 	for _, l := range []int{64, 110} {
 		for _, n := range []int{1000, l + 1, l} {
-			cases = append(cases, cli{chainBook(l, nil), n, "flag", cmds[0], fmt.Sprintf("chain %d limit %d via flag", l, n)})
+			cases = append(cases, cli{chainBook(l, nil), n, "flag", cmds[0], fmt.Sprintf("chain %d limit %d via flag", l, n), false})
+		}
+	}
+	// a heading declared twice: only the later declaration counts, also when it is empty or carries
+	// nothing but a note; references of the superseded declaration must not be counted
+	{
+		x := func(n string) gen.Ent { return gen.Ent{Name: n, Val: gen.Half(2)} }
+		note := []gen.Note{{Key: "source", Text: "label"}}
+		superseded := []struct {
+			b     gen.Book
+			label string
+		}{
+			{gen.Book{{Name: "r01", Ents: []gen.Ent{x("stock")}}, {Name: "stock", Ents: []gen.Ent{x("r01")}}, {Name: "stock", Notes: note}}, "cycle only through a superseded declaration (later one: note only)"},
+			{gen.Book{{Name: "r01", Ents: []gen.Ent{x("stock")}}, {Name: "stock", Ents: []gen.Ent{x("r01")}}, {Name: "stock"}}, "cycle only through a superseded declaration (later one: empty)"},
+			{gen.Book{{Name: "r01", Ents: []gen.Ent{x("s1")}}, {Name: "s1", Ents: []gen.Ent{x("s2")}}, {Name: "s2", Ents: []gen.Ent{x("s3")}}, {Name: "s3", Ents: []gen.Ent{x("x")}}, {Name: "s1", Ents: []gen.Ent{x("x")}, Notes: note}}, "long chain only through a superseded declaration"},
+			{gen.Book{{Name: "r01", Ents: []gen.Ent{x("s1")}}, {Name: "s1", Ents: []gen.Ent{x("x")}}, {Name: "s1", Ents: []gen.Ent{x("r01")}}}, "later declaration closes a cycle"},
+		}
+		for _, sp := range superseded {
+			for _, n := range []int{3, 10} {
+				cases = append(cases, cli{b: sp.b, n: n, via: "flag", cmd: cmds[0], label: fmt.Sprintf("%s, limit %d", sp.label, n), ordered: true})
+			}
 		}
 	}
 	// default limit 10: chains 9, 10, 11 with no setting at all
 	for _, l := range []int{9, 10, 11} {
-		cases = append(cases, cli{chainBook(l, nil), 10, "default", []string{"csv", "database-resolved"}, fmt.Sprintf("chain %d default limit", l)})
+		cases = append(cases, cli{chainBook(l, nil), 10, "default", []string{"csv", "database-resolved"}, fmt.Sprintf("chain %d default limit", l), false})
 	}
 	core.ParallelFor(len(cases), c.Procs, func(w, i int) {
 		t := cases[i]
@@ -317,7 +339,9 @@ func runC11(c *core.Ctx) {
 		// declaration order shuffled per case
 		rr := c.Rng("cliorder", i)
 		bb := append(gen.Book{}, t.b...)
-		rr.Shuffle(len(bb), func(a, b int) { bb[a], bb[b] = bb[b], bb[a] })
+		if !t.ordered {
+			rr.Shuffle(len(bb), func(a, b int) { bb[a], bb[b] = bb[b], bb[a] })
+		}
 		files := map[string]string{"food.yaml": bookText(bb), "log.yaml": "2021/01/24:\n  r01: 1\n  c01: 2\n  p01: 1\n"}
 		args := []string{"--no-color", "-d", "food.yaml", "-l", "log.yaml"}
 		env := map[string]string{}
